@@ -47,6 +47,7 @@ package dataflow
 //@ func IntraAnalysisState.DoExtract
 //@   property C08
 //@   ensures Tuple: xfer(state, x, x.Tuple, x)
+//@   ensures call_results_by_index: !(istype(x.Tuple, *ssa.Next) || istype(x.Tuple, *ssa.Select) || istype(x.Tuple, *ssa.Lookup)) ==> called(transfer, state, x, x.Tuple, x, "", NewIndex(x.Index))
 //@   ensures untracked_tuples_unfiltered: istype(x.Tuple, *ssa.Next) || istype(x.Tuple, *ssa.Select) || istype(x.Tuple, *ssa.Lookup) ==> called(transfer, state, x, x.Tuple, x, "", NonIndexMark)
 
 //@ func IntraAnalysisState.DoSlice
@@ -60,10 +61,12 @@ package dataflow
 //@ func IntraAnalysisState.DoStore
 //@   property C08
 //@   ensures Val: xfer(state, x, x.Val, x.Addr)
+//@   ensures unindexed: called(transfer, state, x, x.Val, x.Addr, "", NonIndexMark)
 
 //@ func IntraAnalysisState.DoRange
 //@   property C08
 //@   ensures X: xfer(state, x, x.X, x)
+//@   ensures elements: called(transfer, state, x, x.X, x, "[*]", NonIndexMark)
 
 //@ func IntraAnalysisState.DoNext
 //@   property C08
@@ -73,21 +76,25 @@ package dataflow
 //@   property C08
 //@   requires x != nil
 //@   ensures X: xfer(state, x, x.X, x)
+//@   ensures unindexed: called(transfer, state, x, x.X, x, _, NonIndexMark)
 
 //@ func IntraAnalysisState.DoField
 //@   property C08
 //@   requires x != nil
 //@   ensures X: xfer(state, x, x.X, x)
+//@   ensures unindexed: called(transfer, state, x, x.X, x, _, NonIndexMark)
 
 //@ func IntraAnalysisState.DoIndexAddr
 //@   property C08
 //@   ensures X: xfer(state, x, x.X, x)
 //@   ensures Index: xfer(state, x, x.Index, x)
+//@   ensures elements: called(transfer, state, x, x.X, x, "[*]", _)
 
 //@ func IntraAnalysisState.DoIndex
 //@   property C08
 //@   ensures X: xfer(state, x, x.X, x)
 //@   ensures Index: xfer(state, x, x.Index, x)
+//@   ensures elements: called(transfer, state, x, x.X, x, "[*]", _)
 
 //@ func IntraAnalysisState.DoLookup
 //@   property C08
@@ -98,6 +105,8 @@ package dataflow
 //@   property C08
 //@   ensures Key: xfer(state, x, x.Key, x.Map)
 //@   ensures Value: xfer(state, x, x.Value, x.Map)
+//@   ensures key_into_map: called(transferPre, state, x, x.Key, x.Map, "", NonIndexMark, true)
+//@   ensures value_into_map: called(transferPre, state, x, x.Value, x.Map, "", _, true)
 
 //@ func IntraAnalysisState.DoTypeAssert
 //@   property C08
@@ -542,3 +551,7 @@ package dataflow
 //@   ensures send: istype(ref, *ssa.Send) && ref.(*ssa.Send).X == v && lang.IsNillableType(ref.(*ssa.Send).X.Type()) ==> called(markValue, state, i, ref.(*ssa.Send).Chan, path, mark)
 //@   ensures map_update: istype(ref, *ssa.MapUpdate) && ref.(*ssa.MapUpdate).Value == v && lang.IsNillableType(ref.(*ssa.MapUpdate).Value.Type()) ==> called(markValue, state, i, ref.(*ssa.MapUpdate).Map, path, mark)
 //@   ensures next: istype(ref, *ssa.Next) && !ref.(*ssa.Next).IsString ==> called(markValue, state, i, ref.(*ssa.Next).Iter, path, mark)
+
+//@ func NewIndex
+//@   property C08
+//@   pure
